@@ -15,7 +15,7 @@ MANIFEST = {
     "C14": {
         "technique": "Lean 4 proof (invariants of a small-step transition-system model of Server::run + Socket::Poll over all histories, callback scripts and kernel answers) + differential correspondence model vs real Server under virtual time with interposed clock_gettime/epoll_wait/epoll_ctl/send",
         "text": "27 theorems over ALL histories of the Lean model (API calls, arbitrary callback scripts that create/remove timers, clients, listeners, establishers also from inside callbacks, any epoll_wait answer in any order, any time advance, any send outcome): no_fault (no null/dangling pointer use), timer_queue_exact, timer_not_early, timer_order, timer_once_per_interval, poll_timeout_is_next_due, callbacks_only_to_live, removed_never_called (all four object kinds, also with events pending), dispatch_only_registered_kinds, failed-I/O => onClosed, run_returns_only_on_interrupt, interrupt_returns_run, interrupt_never_lost. The model is tied to the current Server.cpp/Socket.cpp on every run: identical op lines are executed on a real Server (socket pairs, loop-back listeners and establishers, virtual clock, epoll_wait answered from the really-ready set permuted/truncated by the schedule, callback scripts) and on the compiled model; an independent Python reference timer scheduler predicts pure timer programs exactly and a monitor evaluates removed_never_called / timer_not_early / timer_order / timeliness / live-object sets directly on the implementation's callback log.",
-        "note": "Trusted: Lean kernel + the three standard axioms; hand translation of run()/Poll into the model (validated by the correspondence run, not proved). Modelled rather than verified: MultiMap as a key-sorted FIFO multimap with lower-bound find (C01 incl. the repair of D1 — without it the check reports D19 with a 2-timer failing input), PoolList/HashSet/HashMap as reference containers (C02/C03), kernel epoll/eventfd/socket readiness (assumption; the harness prints ENV-FAIL when the kernel deviates), interrupt() from another thread as two moves (flag under the mutex, then event-descriptor write) interleaved arbitrarily with run() in the theorems — the correspondence run only exercises interrupt() from callbacks, between runs and from inside epoll_wait; weak-memory effects on the unlocked read of _interrupted are not modelled, host-name resolving establishers and Server::clear() not modelled, failing connects are injected through an interposed getsockopt(SO_ERROR) (a real refused loop-back connect is not deterministic), peers of accepted/connected TCP clients never close in the correspondence runs. OPEN (not proved): ready_eventually_dispatched (liveness under kernel fairness) and real-time bounds; the model proves only that run() never sleeps past a due timer. The model mirrors the repaired code (fixes/server/01, 02).",
+        "note": "Trusted: Lean kernel + the three standard axioms; hand translation of run()/Poll into the model (validated by the correspondence run, not proved). Modelled rather than verified: MultiMap as a key-sorted FIFO multimap with lower-bound find (C01 incl. the repair of D1 — without it the check reports D19 with a 2-timer failing input), PoolList/HashSet/HashMap as reference containers (C02/C03), kernel epoll/eventfd/socket readiness (assumption; the harness prints ENV-FAIL when the kernel deviates), interrupt() from another thread as two moves (flag under the mutex, then event-descriptor write) interleaved arbitrarily with run() in the theorems — the correspondence run exercises interrupt() from callbacks, between runs, from inside epoll_wait and (op `runmt`, timers-only histories) from a real second thread racing with run(); weak-memory effects on the unlocked read of _interrupted are not modelled, host-name resolving establishers and Server::clear() not modelled, failing connects are injected through an interposed getsockopt(SO_ERROR) (a real refused loop-back connect is not deterministic), peers of accepted/connected TCP clients never close in the correspondence runs. OPEN (not proved): ready_eventually_dispatched (liveness under kernel fairness) and real-time bounds; the model proves only that run() never sleeps past a due timer. The model mirrors the repaired code (fixes/server/01, 02).",
         "design_ref": "DESIGN.md 3/C14",
     },
 }
@@ -469,7 +469,13 @@ def c14_monitor(hist, impl_out):
         t = line.split()
         if o.startswith("ENV-FAIL") or o == "bad-op":
             return None if o == "bad-op" else None
-        if t[0] == "run":
+        if t[0] == "runmt":
+            m.intr = True
+            events = o.split(" | ")[0].split()
+            m.run_log([], [] if events == ["-"] else events)
+            if not events or not events[-1].startswith("ret@"):
+                m.fail("run() did not return after interrupt() from a second thread")
+        elif t[0] == "run":
             events = o.split(" | ")[0].split()
             explicit_i = any(e.startswith("I") for e in t[2:])
             m.run_log(t[2:], [] if events == ["-"] else events)
@@ -522,8 +528,10 @@ def c14_timer_reference(hist):
         elif t[0] == "adv":
             state["clock"] += int(t[1])
             out.append("ok | " + live())
-        elif t[0] == "run":
-            entries = list(t[2:])
+        elif t[0] in ("run", "runmt"):
+            entries = list(t[2:]) if t[0] == "run" else []
+            if t[0] == "runmt":
+                state["intr"] = True
             log = []
             for _ in range(100000):
                 now = state["clock"]
@@ -559,7 +567,7 @@ def c14_timer_reference(hist):
 
 
 def c14_reference(hist, impl_out):
-    pure = all(l.split()[0] in ("script", "act", "adv", "run") for l in hist) and \
+    pure = all(l.split()[0] in ("script", "act", "adv", "run", "runmt") for l in hist) and \
         all(a[0] in ("mk", "rmt", "intr") for l in hist if l.split()[0] in ("script", "act")
             for a in (parse_acts(l.split()[3]) if l.split()[0] == "script" else [l.split()[1].split(":")]))
     if pure:
@@ -607,6 +615,8 @@ def c14_timer_history(rng, equal_due=False):
             h.append(f"adv {rng.randint(0, 3)}")
     for _ in range(rng.randint(1, 3)):
         h.append("run all " + " ".join("-" if rng.random() < 0.9 else "I" for _ in range(rng.randint(0, 12))))
+        if rng.random() < 0.08:
+            h.append(f"runmt {rng.choice([0, 0, 50, 300, 2000])}")
         if rng.random() < 0.4:
             h.append(f"act rmt:{rng.choice(allids)}")
         if rng.random() < 0.2:
@@ -765,6 +775,8 @@ class C14Stats:
                 self.ev[k] = self.ev.get(k, 0) + v
             if bad:
                 self.fail.append((h, bad))
+        with self.lock:
+            self.mt = getattr(self, "mt", 0) + sum(1 for l in h if l.startswith("runmt"))
         runs = [o.split(" | ")[0] for l, o in zip(h, out) if l.startswith("run")]
         if not runs or all(r.count("@") <= 1 for r in runs):
             return None
@@ -816,9 +828,10 @@ def check_c14(ctx):
         diffs = C.differential(ctx, harness, C.driver_path(DRIVER), hs, c14_reference, nontrivial=st.nontrivial, timeout=600)
         ctx.cov["callbacks_seen"] = st.ev
         ctx.cov["env_fail_lines"] = st.envfail
+        ctx.cov["runs_interrupted_by_a_real_second_thread"] = getattr(st, "mt", 0)
         ctx.cov["open_statements"] = [
             "ready_eventually_dispatched: under a fair kernel every registered ready socket is eventually dispatched (liveness; only the safety half is proved: buffered_events_are_registered, dispatch_only_registered_kinds)",
-            "interrupt() racing with run(): proved for the two-move model (flag, then event descriptor) under sequential consistency; not exercised with a real second thread",
+            "interrupt() racing with run(): proved for the two-move model (flag, then event descriptor) under sequential consistency; exercised with a real second thread only in timers-only histories (op runmt)",
             "resolver-based establishers (connect by host name) are not modelled; a failing connect is injected through the interposed getsockopt(SO_ERROR)",
         ]
         ctx.log(f"{len(hs)} histories, {ctx.cov['evaluations']} op lines, {len(diffs)} disagreement(s), monitor failures {len(st.fail)}; callbacks {st.ev}; env-fail {st.envfail}")
